@@ -417,7 +417,7 @@ def sqlFrame (nm : Namer) (norm : Name → Name) (reg : Registry) (q : Query) : 
 def schemaBody (cfg : SpliceCfg) (norm : Name → Name) (reg : Registry) (users : List Name)
     (ucols : Name → Option (List Name)) : Body → Body
   | .lit T => .lit T
-  | .scan n => .scan (spliceRho cfg norm reg users n)
+  | .scan n => if users.contains n then .scan n else .scan (spliceRho cfg norm reg users n)   -- qualify runs before the splice: a CTE of the statement is still itself
   | .un op b =>
     let b' := schemaBody cfg norm reg users ucols b
     match op, b with
